@@ -510,7 +510,7 @@ def rule_no_stale_cache(ctx: Ctx, rep: Report, rule: str, module_prefixes: tuple
                 mut = _annotation_names(ctx, m.node.returns) & MUTABLE_CONTAINERS
                 rep.ob(rule, f"{mq}.{cname}.{m.node.name}:immutable_answer", not mut, m.where(),
                        "the cached value is of an immutable type" if not mut else
-                       f"a cached_property answering a {sorted(mut)[0]}: every read hands out the one cached object, and a caller's edit is every later read's answer")
+                       f"a cached_property answering a {'list' if 'list' in mut else sorted(mut)[0]}: every read hands out the one cached object, and a caller's edit is every later read's answer")
                 rep.ob(rule, f"{mq}.{cname}.{m.node.name}:frozen_owner", frozen, m.where(),
                        "cached_property of a frozen dataclass of immutable fields" if frozen else
                        f"cached_property in {cname}, {why_not}: the value computed once is answered after what it was computed from has changed")
